@@ -1,6 +1,7 @@
 package main
 
 import (
+	"os"
 	"fmt"
 	"go/token"
 	"go/types"
@@ -527,6 +528,22 @@ func (callee *Frame) havocLoc(loc *Spec, pre, post *State, vars map[string]sval)
 	case "range":
 		if callee.frameCaller != nil {
 			callee.frameCaller.checkLoopFrameRange(li.comp, li.reg, li.lo, li.hi, callee.frameInstr)
+		}
+		w := 0
+		if li.elem != nil {
+			w = widthOf(li.elem)
+		}
+		if li.comp == "M" && w > 0 && w <= 8 && os.Getenv("GOVC_WORDSTORE") != "" {
+			// a single word: fresh bytes stored one by one (no quantified frame needed)
+			m := post.get("M")
+			arr := app("select", m, li.reg)
+			for i := 0; i < w; i++ {
+				b := c.fresh("hvb", "Int")
+				c.fact(app("<=", "0", b, "255"))
+				arr = app("store", arr, add(li.lo, num(int64(i))), b)
+			}
+			post.set("M", c.define("hv", compSorts["M"], app("store", m, li.reg, arr)))
+			return
 		}
 		m := post.get(li.comp)
 		old := app("select", m, li.reg)
